@@ -138,6 +138,7 @@ fn run_churn(deny_focus: bool, full: bool) -> SimResult {
     let mut w = World { nodes, beh_dial_ids: BTreeSet::new(), echo_sent: vec![], union_checks: vec![] };
     let nops = 20 + choose(if thorough() { 120 } else { 60 });
     let mut echo_no = 0u64;
+    let mut addr_no = 0u64;
     let mut sample = vec![];
     for _ in 0..nops {
         if violated() {
@@ -237,6 +238,19 @@ fn run_churn(deny_focus: bool, full: bool) -> SimResult {
                 w.nodes[a].kick();
                 format!("n{a}.p{}.Echo#{e}->{id}", k + 1)
             }
+            12 if !full && choose(3) == 0 => {
+                // the muxer of one side reports a new remote address (connection migration): C58 - every field's handler hears it
+                let count = net::conn_count();
+                if count == 0 {
+                    continue;
+                }
+                let c = choose(count);
+                addr_no += 1;
+                let addr: Multiaddr = format!("/ip4/10.99.0.{}/tcp/{}", 1 + addr_no % 200, 20_000 + addr_no).parse().unwrap();
+                net::change_address(c, choose(2), addr.clone());
+                probe("muxer_address_change");
+                format!("conn {c} address change -> {addr}")
+            }
             12 => {
                 let d = [1u64, 40, 400, 6000][choose(4)];
                 advance(Duration::from_millis(d));
@@ -312,6 +326,22 @@ enum Life {
     ListenFail(ConnectionId),
 }
 
+/// In the end-of-run oracles one scenario evaluates clauses of several properties in sequence. A failing clause of another
+/// property must not end the evaluation (the running check would drop it and never reach its own clauses): it is recorded
+/// and the evaluation goes on.
+macro_rules! ensure {
+    ($cond:expr, $clause:expr, $($arg:tt)*) => {
+        if !($cond) {
+            let v = simkit::Violation { clause: ($clause).to_string(), detail: format!($($arg)*) };
+            if simkit::ctx::clause_is_foreign(&v.clause) {
+                simkit::soft_violation(v);
+            } else {
+                return Err(v);
+            }
+        }
+    };
+}
+
 fn final_oracles(w: &World) -> SimResult {
     let mut established_total = 0;
     let mut closed_total = 0;
@@ -369,7 +399,7 @@ fn final_oracles(w: &World) -> SimResult {
         let beh: Vec<Life> = per_tag.get(&1).cloned().unwrap_or_default().into_iter().filter(|l| !matches!(l, Life::DialFail(id) if w.beh_dial_ids.contains(id) && !app_ids.contains(id))).collect();
         if beh != app {
             let pos = beh.iter().zip(app.iter()).position(|(x, y)| x != y).unwrap_or(beh.len().min(app.len()));
-            return Err(violation!("C01/behaviour-order-differs", "n{i}: lifecycle seen by the behaviour differs from the SwarmEvent stream at position {pos}: behaviour {:?} vs application {:?} (lens {} / {})", beh.get(pos), app.get(pos), beh.len(), app.len()));
+            ensure!(false, "C01/behaviour-order-differs", "n{i}: lifecycle seen by the behaviour differs from the SwarmEvent stream at position {pos}: behaviour {:?} vs application {:?} (lens {} / {})", beh.get(pos), app.get(pos), beh.len(), app.len());
         }
         // ---- C06 / C58: denial is final, and a connection is denied iff some field denied
         let mut denied_ids: BTreeMap<ConnectionId, &'static str> = BTreeMap::new();
@@ -413,7 +443,8 @@ fn final_oracles(w: &World) -> SimResult {
             for t in [1u8, 2, 3] {
                 let fails: Vec<&BEv> = log.beh.iter().map(|(_, e)| e).filter(|e| matches!(e, BEv::DialFailure { tag, id: x, .. } | BEv::ListenFailure { tag, id: x, .. } if tag == &t && x == id)).collect();
                 ensure!(fails.len() == 1, "C06/failure-count", "n{i}: field {t} received {} failure notifications for denied connection {id} ({point}), expected exactly one", fails.len());
-                let kind = match fails[0] {
+                let Some(first) = fails.first() else { continue };
+                let kind = match first {
                     BEv::DialFailure { kind, .. } | BEv::ListenFailure { kind, .. } => kind.clone(),
                     _ => unreachable!(),
                 };
@@ -431,6 +462,19 @@ fn final_oracles(w: &World) -> SimResult {
             };
             if kind == "Denied" {
                 ensure!(denied_ids.contains_key(id), "C58/denied-without-denial", "n{i}: connection {id} failed with Denied but no field denied it");
+            }
+        }
+        // ---- C58: an address change of a connection is handed to the handler of every field, once
+        {
+            let mut per: BTreeMap<(ConnectionId, String), [usize; 3]> = BTreeMap::new();
+            for (_, h) in &log.hand {
+                if let HEv::AddressChange { tag, id, addr } = h {
+                    per.entry((*id, addr.to_string())).or_default()[*tag as usize - 1] += 1;
+                }
+            }
+            for ((id, addr), n) in &per {
+                ensure!(*n == [1, 1, 1], "C58/address-change-not-fanned-out", "n{i}: the address change of connection {id} to {addr} reached the handlers of the three fields {n:?} times (expected once each)");
+                probe("address-change-delivered-to-every-handler");
             }
         }
         // ---- C58: Echo routing
